@@ -4,6 +4,9 @@
 -/
 import PyModeS.Tie.Common
 import PyModeS.Tie.Crc
+
+-- symbolic execution of long generated `do` blocks: generous but finite budget (proof times are seconds)
+set_option maxHeartbeats 1000000
 namespace PyModeS.Tie
 open PyModeS PyModeS.Py PyModeS.CRC
 
